@@ -118,13 +118,42 @@ def dslash_shapes(p):
     return f
 
 
+def _attr_positional_ast(p):
+    """an attribute step of the pattern carries a predicate that depends on the context position / size (uses position() or last(), or
+    is number-valued: [string-length('x')] means [position() = 1])"""
+    try:
+        ast = ref_xpath.parse_pattern(p)
+    except Exception:
+        return False
+
+    def uses_pos(a):
+        if not isinstance(a, tuple):
+            return False
+        if a and a[0] == 'fn' and a[1] is None and a[2] in ('position', 'last'):
+            return True
+        return any(uses_pos(x) for x in a if isinstance(x, tuple))
+
+    def walk(a, top=True):
+        if not isinstance(a, tuple):
+            return False
+        if a and a[0] == 'step' and a[1] == 'attribute' and top:
+            for pred in a[3]:
+                if gen_xpath.numeric_valued(pred) or uses_pos(pred):
+                    return True
+        # only the steps of the pattern itself, not paths inside predicates
+        if a and a[0] == 'step':
+            return False
+        return any(walk(x, top) for x in a if isinstance(x, tuple))
+    return walk(ast)
+
+
 def pat_features(p):
     f = set()
     if re.search(r'(@|attribute\s*::)', p):
         f.add('attr-step')
     if re.search(r'(@|attribute\s*::)\s*(node|text|comment|processing-instruction)\s*\(', p):
         f.add('attr-type-test')
-    if re.search(r'(@|attribute\s*::)[^/|]*\[[^\]]*(position|last|\[\s*\d)', p) or re.search(r'(@|attribute\s*::)\s*[\w:*-]+\s*\[\s*\d', p):
+    if re.search(r'(@|attribute\s*::)[^/|]*\[[^\]]*(position|last|\[\s*\d)', p) or re.search(r'(@|attribute\s*::)\s*[\w:*-]+\s*\[\s*\d', p) or _attr_positional_ast(p):
         f.add('attr-positional')
     if '//' in p:
         f.add('dslash')
